@@ -938,6 +938,16 @@ pub fn stress_shapes(thorough: bool) -> Vec<(String, Vec<u8>)> {
         b.extend(frame_bytes(&[chunk(cel_chunk(&Cel { layer: 0, x: 0, y: 0, opacity: 255, content: CelContent::Link { frame: 1 }, user_data: None }, None, &mut None))], 1));
         v.push((format!("duplicate-cel-not-adjacent-{}", name), b));
     }
+    // a tileset id defined again after a tilemap cel has used it, with fewer tiles than that cel references (and
+    // with another tile size)
+    for (name, count2, tw2) in [("fewer-tiles", 1u32, 2u16), ("other-tile-size", 4, 1)] {
+        let ts1 = Tileset { id: 0, flags: 2, count: 4, tw: 2, th: 2, base_index: 1, name: String::new(), ext: (0, 0), pixels: (0..4 * 2 * 2 * 4).map(|i| (i * 7) as u8 | 1).collect() };
+        let ts2 = Tileset { id: 0, flags: 2, count: count2, tw: tw2, th: tw2, base_index: 1, name: String::new(), ext: (0, 0), pixels: vec![9u8; count2 as usize * tw2 as usize * tw2 as usize * 4] };
+        let cel = Cel { layer: 0, x: 0, y: 0, opacity: 255, content: CelContent::Tilemap { w: 2, h: 2, bits: 32, masks: [0x1fffffff, 0x20000000, 0x40000000, 0x80000000], tiles: vec![0, 1, 2, 3] }, user_data: None };
+        let mut b = header_bytes(1, 4, 4, 32);
+        b.extend(frame_bytes(&[chunk(tileset_chunk(&ts1, 6, &mut None)), simple_layer(0, LayerKind::Tilemap { tileset: 0 }, 1), chunk(cel_chunk(&cel, Some(6), &mut None)), chunk(tileset_chunk(&ts2, 6, &mut None))], 1));
+        v.push((format!("tileset-redefined-after-its-tilemap-cel-{}", name), b));
+    }
     // degenerate tilesets and tilemaps: zero tiles, zero tile sizes, zero-sized maps, in combination
     for count in [0u32, 1] {
         for (tw, th) in [(0u16, 0u16), (0, 1), (1, 0), (1, 1)] {
